@@ -438,9 +438,17 @@ def magic_bytes():
 # sub-commands
 
 
-def write_pyc(co, out, mtime=0, size=0):
+def write_pyc(co, out, mtime=0, size=0, flags=0, src=b""):
     with open(out, "wb") as f:
         f.write(magic_bytes())
+        if PYV >= (3, 7) and flags & 1:
+            # PEP 552 hash-based file: flag word, then the 8-byte source hash
+            import importlib.util
+
+            f.write(struct.pack("<I", flags))
+            f.write(importlib.util.source_hash(src))
+            f.write(marshal.dumps(co))
+            return
         if PYV >= (3, 7):
             f.write(struct.pack("<I", 0))
         f.write(struct.pack("<I", mtime & 0xFFFFFFFF))
@@ -532,7 +540,8 @@ def cmd_compile(args, out):
                             dont_inherit=True,
                             optimize=it.get("optimize", -1),
                         )
-                write_pyc(co, it["pyc"], it.get("mtime", 0), len(src))
+                write_pyc(co, it["pyc"], it.get("mtime", 0), len(src), it.get("pyc_flags", 0),
+                          src if isinstance(src, bytes) else src.encode("utf-8", "surrogatepass"))
             with open(it["pyc"], "rb") as f:
                 data = f.read()
             hl = it.get("header_len", header_len())
